@@ -26,6 +26,7 @@ import EngineModel.Api.CratesV1
 import EngineModel.Db.V2Crates
 import EngineModel.TracksV2.Lens
 import EngineModel.Spec.Dir
+import EngineModel.TracksV1.Stmts
 import Proofs.Dir
 
 namespace EngineModel.Properties.C10
@@ -205,6 +206,23 @@ theorem C10_tracks_v2 (o : TracksV2.FOps) (calls : List (Nat × TracksV2.Setter)
         ((calls.take n).map (apiCall fun d c => (TracksV2.Db.set o d c.1 c.2).1))).view id
       = TracksV2.Db.snapshot o ((calls.take n).foldl (fun d c => (TracksV2.Db.set o d c.1 c.2).1) db) id := by
   rw [(C10_api_model_reopen _ calls db n).2]
+
+/-- One public mutating track call of the 1.x model as a state transformer (a call that throws changes nothing). -/
+def tracksV1Step (o : EngineModel.TracksV1.Fl.FOps) (d : TracksV1.Db) (op : TracksV1.TOp) : TracksV1.Db :=
+  match TracksV1.topStep o d op with
+  | .ok d' => d'
+  | _ => d
+
+/-- Schema-1.x tracks (`TracksV1`): after any history of track calls (create, update, every setter, remove),
+closed and loaded after each, every accessor of the model — `snapshot()`, any getter, `is_valid`, through any
+function `q` of the tables — answers as in the model's own run, at every prefix. -/
+theorem C10_tracks_v1 {β : Type} (o : EngineModel.TracksV1.Fl.FOps) (calls : List TracksV1.TOp) (db : TracksV1.Db) (q : TracksV1.Db → β) (n : Nat) :
+    q (runCallsReopen (Conn.idle db) ((calls.take n).map (apiCall (tracksV1Step o)))).view
+      = q ((calls.take n).foldl (tracksV1Step o) db) ∧
+    q (runCalls (Conn.idle db) ((calls.take n).map (apiCall (tracksV1Step o)))).reopen.view
+      = q ((calls.take n).foldl (tracksV1Step o) db) := by
+  rw [(C10_api_model_reopen _ calls db n).2, (C10_api_model_reopen _ calls db n).1]
+  exact ⟨rfl, rfl⟩
 
 /-! ### (ii) reload -/
 
